@@ -15,7 +15,7 @@ from . import c01
 ID = 'C15'
 LEVEL = 'exploration'
 TECHNIQUE = 'bounded exhaustive enumeration of single-action schedules (plus sampled pairs and Hypothesis-drawn longer schedules) over walk()/search()/sub() with a per-yield monitor'
-RULE = ('Templates: 26 bounded programs (<= 40 nodes: nested lists, calls with keywords, dicts, nested blocks with else / try / with / match, defs with '
+RULE = ('Templates: 33 bounded programs (<= 40 nodes: nested lists, calls with keywords, dicts, nested blocks with else / try / with / match, defs with '
         'decorators and defaults, comprehensions) plus small real windows. A schedule is a list of (yield index, action); actions: remove / replace '
         '(by leaf, by sub-tree with children) the yielded node, its parent, its grand-parent, its previous or next sibling; insert before / after; '
         'send(False); send(True); nothing. All single-action schedules are enumerated for every template and every setting of on x back x '
@@ -68,6 +68,10 @@ TEMPLATES = (
     'def f(p):\n    r = [i for i in (lambda q=p: q) if i]\n    return r',
     'class C:\n    x = {k: v for k, v in d if k}\n    y = (lambda a=x: a)',
     'def f():\n    g = (i for i in (j for j in z))\n    return g, [w := u for u in v]',
+    # list fields whose FIRST element is None (Dict.keys of a leading `**`, kw_defaults of a keyword-only parameter without default)
+    '[pre, {**u, k1: v1, k2: [x, y]}, post]',
+    'def f(*, a, b=d1, c=[d2]):\n    return a\ng = lambda *, p, q=d3: q',
+    'r = {**u, **w, k: v}\ns = f(*a, b, **c)',
 )
 
 ON = ('enter', 'leave', 'both')
